@@ -22,7 +22,7 @@ RULE = ("full product object kind {VAR, VAR without ObjectType, ObjectType 2, RE
         "type x case, PDOMapping {absent,0,1,0x1}, number spelling, ParameterValue {absent, absolute, $NODEID-relative}, "
         "sub/Sub, sub-index digit case, node id source {argument, file, absent} are rotated (thorough: multiplied in); plus "
         "document-level cases (device info, comments, bit rate, suffix dispatch, pairs of kinds). non-trivial = documents "
-        "with a non-default spelling, a relative value, a limit or a structured object")
+        "with a non-default spelling, a relative value, a limit or a structured object; defaults of signed objects as two's complement hex, limits and defaults of REAL objects as decimal fractions and as whole numbers in hex")
 ASSUMPTIONS = [
     "well-formed = unique names without ';' or leading/trailing blanks, object (parent) names without '.' (member names may contain dots), dense name lists, no octal spellings, no EPF",
     "limits of REAL objects are spelled as decimal fractions",
